@@ -5,6 +5,7 @@ import SaModel.Lemmas.C08ZooD
 import SaModel.Lemmas.C08ZooE
 import SaModel.Lemmas.C08Explore
 import SaModel.Lemmas.C08Loop
+import SaModel.Lemmas.C08NotWalkable
 /-
 C08 — tracing yields the documented mapping; from_type and from_samples agree.
 Model: SaModel/Trace/{Tracer,FromSamples,FromType}.lean.  Documented mapping: SaModel/Trace/Mapping.lean (`Spec.mapping`,
@@ -345,13 +346,42 @@ theorem C08_loop (c : Code) (o : Options) (ty : Ty) (hw : walkable o "$" ty = tr
       else fail "Could not determine schema from the type after {budget} iterations" :=
   loop_after c o ty "$" "$" false hw b k
 
-/-- `C08_from_type`: for every type description that can be walked (no container beyond the depth limit, no map under
-`map_as_struct`, no enum without variants) and ALL options (budget, overwrites, every flag), `from_type` is the
-documented result: the same fields, or an error on both sides (budget too small, unknown overwrite path, overwrite with
-a wrong name, null-only field, root not a non-nullable struct, more than 128 variants). -/
-theorem C08_from_type (c : Code) (o : Options) (ty : Ty) (hw : walkable o "$" ty = true) :
-    Agree (fromType c o ty) (fromTypeSpec o ty) :=
-  fromType_walkable c o ty hw
+/-- `C08_from_type`: for EVERY type description and ALL options (budget, overwrites, every flag), `from_type` is the
+documented result `Spec.fromTypeSpec`: the same fields, or a (Rust) error on both sides — the type cannot be walked
+(a container beyond the depth limit, a map under `map_as_struct`, an enum without variants), budget too small, unknown
+overwrite path, overwrite with a wrong name, null-only field, root not a non-nullable struct, more than 128 variants.
+The model never panics on this entry point. -/
+theorem C08_from_type (c : Code) (o : Options) (ty : Ty) : Agree (fromType c o ty) (fromTypeSpec o ty) :=
+  fromType_spec c o ty
+
+/-- a type that cannot be walked: `from_type` is an error whatever the budget (the passes before the failing one leave
+an incomplete tracer; `Conf`, SaModel/Lemmas/C08Conf.lean, is the invariant) -/
+theorem C08_from_type_not_walkable (c : Code) (o : Options) (ty : Ty) (hw : walkable o "$" ty = false) :
+    ∃ m, fromType c o ty = .error (.err m) :=
+  fromType_not_walkable c o ty hw
+
+/-- recursive types hit the depth limit.  The model represents a recursive definition `T = F T` by its unrollings
+`unroll F n base`; when `F` puts its argument at least one path level down (below a struct field, sequence element,
+tuple element, map entry or variant payload: `Descends`), every unrolling deeper than `MAX_TYPE_DEPTH` = 20 is an
+error — and `from_type` of the Rust type behaves like these unrollings, since a pass never looks below the first
+container that is too deep. -/
+theorem C08_from_type_recursive (c : Code) (o : Options) (F : Ty → Ty) (hF : Descends o F) (base : Ty) (n : Nat)
+    (hn : MAX_TYPE_DEPTH < n) : ∃ m, fromType c o (unroll F n base) = .error (.err m) :=
+  fromType_not_walkable c o _ (unroll_not_walkable o F hF base n hn)
+
+/-- non-vacuity: `struct Node { value: i32, next: Option<Box<Node>> }` and
+`enum Tree { Leaf, Node(Box<Tree>, Box<Tree>) }` descend -/
+example (o : Options) :
+    Descends o (fun t => .struct "Node" (.cons "value" (.int .i32) (.cons "next" (.option t) .nil))) ∧
+    Descends o (fun t => .enum "Tree" (.unit "Leaf" (.tuple "Node" (.cons t (.cons t .nil)) .nil))) := by
+  constructor
+  · intro t p h
+    simp only [walkable, walkableFields, Bool.and_eq_true, Bool.not_eq_true', Bool.and_true] at h
+    exact ⟨h.1, childPath p "next", by rw [countDots_child]; omega, h.2.2⟩
+  · intro t p h
+    simp only [walkable, walkableVariants, walkableTys, Bool.and_eq_true, Bool.not_eq_true', Bool.and_true] at h
+    exact ⟨h.1.1, childPath (childPath p "Node") (toString 0), by rw [countDots_child, countDots_child]; omega,
+      h.2.2.1⟩
 
 /-- fewer passes allowed than the type needs: exactly the budget error of the loop -/
 theorem C08_from_type_budget (c : Code) (o : Options) (ty : Ty) (hw : walkable o "$" ty = true)
